@@ -54,6 +54,11 @@ try:
         res["caught"] = c.returncode == 1 and len(failed) > 0 and not nounits
         if nounits: res["check_note"] = "property has no check (not claimed): nothing can catch this change"
         if "no such property" in c.stdout+c.stderr or (c.returncode not in (0,1)): res["check_note"] = (c.stdout+c.stderr)[-300:]
+        if not res["caught"] and not nounits:
+            t = run(f"/verif/bin/govc check -prop {prop} -repo {wt} -noevidence -tier thorough")
+            bf = re.findall(r"FAILED bounded stand-in (\S+): (.*)", t.stdout)
+            res["thorough_caught"] = t.returncode == 1 and len(bf) > 0
+            if bf: res["thorough_by"] = bf[0][0]; res["thorough_failing_input"] = bf[0][1][:300]
         reset()
         json.dump(res, open(d+"result.json","w"), indent=1)
         print(f"{prop}/{k}: demo_confirmed={res['demo_confirmed']} caught={res['caught']} failed={failed[:3]}", flush=True)
